@@ -37,7 +37,10 @@ CONSTANTS
     MaxCrash,      \* how many kills (SIGKILL of one redo process or of the whole tree) may happen
     CrashWindow,   \* TRUE: kills may also land between rename(tmp, t) and the commit recording it
     StampWindow,   \* TRUE: kills may also land between a script's redo-stamp and the recording of its build
+    StaleTmpDirBug, \* TRUE: pinned behaviour, a stale <t>.redo.tmp that is a directory makes start_self fail (EISDIR)
     SelfDepPanics, \* TRUE: pinned behaviour, add_dep asserts self.id != src.id (exit 101)
+    Links,      \* [link name -> Seq(names)]: sources that are symbolic links, and what the user may point them to
+                \* (initially the first; the pointees are sources that are never removed)
     NameSeq     \* all file names in the order of SQL `order by name` (TLC cannot compare strings)
 
 Files == Plain \cup DoFiles
@@ -45,7 +48,7 @@ Names == Files \cup {ALWAYS}
 
 VARIABLES
     fs,      \* [Files -> [ex, val, ver, own]]
-    tmp,     \* set of targets whose <t>.redo.tmp exists
+    tmp,     \* set of <<target, kind>> whose <t>.redo.tmp exists (kind "f" file, "d" directory)
     clock,   \* source of fresh stamps
     w,       \* the database (RedoCore world)
     runid,   \* last allocated run id
@@ -73,13 +76,22 @@ Top   == <<"c">>
 Idle == [kind |-> "idle", targs |-> <<>>, keep |-> FALSE, j |-> 1]
 
 FileRec(n, k, c, own) == [ex |-> TRUE, val |-> [n |-> n, k |-> k, v |-> c, d |-> <<>>],
-                          ver |-> c, own |-> own]
-Absent == [ex |-> FALSE, val |-> NoVal, ver |-> 0, own |-> "none"]
+                          ver |-> c, own |-> own, dir |-> FALSE, lnk |-> ""]
+Absent == [ex |-> FALSE, val |-> NoVal, ver |-> 0, own |-> "none", dir |-> FALSE, lnk |-> ""]
+
+\* temporary output files: tmp is a set of pairs <<target, "f" | "d">> ($3 made a directory by the script)
+HasTmp(t)      == \E x \in tmp : x[1] = t
+TmpDir(t)      == <<t, "d">> \in tmp
+DelTmp(S, t)   == {x \in S : x[1] # t}
+AddTmp(S, t, k) == DelTmp(S, t) \cup {<<t, k>>}
 
 NeverBuilt == [built |-> FALSE, out |-> 0, deps |-> {}, stamped |-> FALSE, val |-> NoVal]
 
 DoVer(df) == fs[df].val.v          \* version of the rule text currently in df
-ReadVal(n) == IF fs[n].ex THEN fs[n].val ELSE NoVal
+\* what reading n gives (through a symbolic link: the content of what it points to)
+ReadVal(n) == IF ~fs[n].ex THEN NoVal
+              ELSE IF fs[n].lnk # "" THEN (IF fs[fs[n].lnk].ex THEN fs[fs[n].lnk].val ELSE NoVal)
+              ELSE fs[n].val
 
 EnvOf(p)  == [fs |-> fs, rid |-> procs[p].rid, q |-> FALSE]
 
@@ -115,7 +127,8 @@ ReleaseAll(lk, p) == [n \in DOMAIN lk |-> IF lk[n] = p THEN NoPid ELSE lk[n]]
 (***************************************************************************)
 Init ==
     /\ fs = [n \in Files |->
-               IF n \in InitFiles
+               IF n \in DOMAIN Links THEN [FileRec(n, "link", 1, "user") EXCEPT !.lnk = Links[n][1]]
+               ELSE IF n \in InitFiles
                THEN FileRec(n, IF n \in DoFiles THEN "do" ELSE "user", 1, "user")
                ELSE Absent]
     /\ tmp = {}
@@ -135,7 +148,9 @@ Init ==
              seen |-> [n \in Plain |-> NeverBuilt],
              fails |-> {}, src |-> {}, codes |-> {}, crashes |-> 0, crashNow |-> FALSE, inner |-> {}]
 
-Bump(n) == [gh EXCEPT !.cg[n] = @ + 1, !.src = @ \ {n}]
+\* (a symbolic link to n reads differently too)
+Bump(n) == [gh EXCEPT !.cg = [x \in Files |-> IF x = n \/ (fs[x].ex /\ fs[x].lnk = n) THEN @[x] + 1 ELSE @[x]],
+                      !.src = @ \ {n}]
 
 Quiet == DOMAIN procs = {} /\ cmd.kind = "idle"
 
@@ -148,13 +163,16 @@ StampRel(n) == LET s == w.db[n].stamp IN
                ELSE IF s = CurStamp(fs, n) THEN "cur" ELSE "stale"
 
 Snapshot ==
-    [files |-> [n \in Files |-> IF fs[n].ex THEN fs[n].val ELSE NoVal],
+    [files |-> [n \in Files |-> ReadVal(n)],
+     links |-> [n \in {m \in Files : fs[m].ex /\ fs[m].lnk # ""} |-> fs[n].lnk],
      rows  |-> [n \in {m \in Names : w.ids[m] # 0} |->
                   [id |-> w.ids[n], gen |-> w.db[n].gen, ovr |-> w.db[n].ovr, checked |-> w.db[n].checked,
                    changed |-> w.db[n].changed, failed |-> w.db[n].failed,
                    stamp |-> StampRel(n), csum |-> w.db[n].csum]],
      edges |-> w.edges,
-     tmp   |-> tmp]
+     dirs  |-> {n \in Files : fs[n].ex /\ fs[n].dir},
+     tmp   |-> {x[1] : x \in tmp},
+     tmpd  |-> {x[1] : x \in {y \in tmp : y[2] = "d"}}]
 
 (***************************************************************************)
 (* User actions (only while nothing runs: the properties' proviso)         *)
@@ -162,12 +180,21 @@ Snapshot ==
 CanAct == Quiet /\ Len(hist) < MaxHist
 
 UserWrite(n) ==
-    /\ CanAct /\ n \in UserFiles
+    /\ CanAct /\ n \in UserFiles /\ ~fs[n].dir /\ n \notin DOMAIN Links
     /\ clock' = clock + 1
     \* the content version is the position in the history (independent of how
     \* many files redo wrote in between); the stamp comes from the clock
     /\ fs' = [fs EXCEPT ![n] = [FileRec(n, "user", Len(hist) + 2, "user") EXCEPT !.ver = clock + 1]]
     /\ hist' = Append(hist, [a |-> "write", n |-> n, v |-> Len(hist) + 2])
+    /\ UNCHANGED <<tmp, w, runid, locks, procs, cmd, ran, ncmds, pool>>
+    /\ gh' = Bump(n)
+
+\* ln -sfn: the link n is replaced by a link to another file
+UserRelink(n, m) ==
+    /\ CanAct /\ n \in DOMAIN Links /\ m \in {Links[n][i] : i \in 1..Len(Links[n])} /\ fs[n].lnk # m
+    /\ clock' = clock + 1
+    /\ fs' = [fs EXCEPT ![n] = [FileRec(n, "link", clock + 1, "user") EXCEPT !.lnk = m]]
+    /\ hist' = Append(hist, [a |-> "relink", n |-> n, v |-> m])
     /\ UNCHANGED <<tmp, w, runid, locks, procs, cmd, ran, ncmds, pool>>
     /\ gh' = Bump(n)
 
@@ -180,8 +207,8 @@ UserRemove(n) ==
 
 \* a stale temporary output file appears beside n (what a killed earlier build leaves behind)
 UserTmp(n) ==
-    /\ CanAct /\ n \in TmpFiles /\ n \notin tmp
-    /\ tmp' = tmp \cup {n}
+    /\ CanAct /\ n \in TmpFiles /\ ~HasTmp(n)
+    /\ tmp' = AddTmp(tmp, n, "f")
     /\ hist' = Append(hist, [a |-> "tmp", n |-> n])
     /\ UNCHANGED <<fs, clock, w, runid, locks, procs, cmd, ran, ncmds, pool, gh>>
 
@@ -190,7 +217,7 @@ DoEdit(df) ==
     /\ CanAct /\ df \in DoEdits /\ fs[df].ex /\ DoVer(df) < Len(Rules[df])
     /\ clock' = clock + 1
     /\ fs' = [fs EXCEPT ![df] = [ex |-> TRUE, val |-> [n |-> df, k |-> "do", v |-> DoVer(df) + 1, d |-> <<>>],
-                                 ver |-> clock + 1, own |-> "user"]]
+                                 ver |-> clock + 1, own |-> "user", dir |-> FALSE, lnk |-> ""]]
     /\ hist' = Append(hist, [a |-> "doedit", n |-> df, v |-> DoVer(df) + 1])
     /\ UNCHANGED <<tmp, w, runid, locks, procs, cmd, ran, ncmds, pool>>
     /\ gh' = Bump(df)
@@ -207,7 +234,7 @@ DoAdd(df) ==
     /\ clock' = clock + 1
     /\ LET v == IF fs[df].val.k = "do" THEN fs[df].val.v ELSE 1 IN
        /\ fs' = [fs EXCEPT ![df] = [ex |-> TRUE, val |-> [n |-> df, k |-> "do", v |-> v, d |-> <<>>],
-                                    ver |-> clock + 1, own |-> "user"]]
+                                    ver |-> clock + 1, own |-> "user", dir |-> FALSE, lnk |-> ""]]
        /\ hist' = Append(hist, [a |-> "doadd", n |-> df, v |-> v])
     /\ UNCHANGED <<tmp, w, runid, locks, procs, cmd, ran, ncmds, pool>>
     /\ gh' = Bump(df)
@@ -332,10 +359,14 @@ Decide(p, t, w1, adv) ==
         LET ss == StartSelf(sb.w, e, t, sf, Cands[t]) IN
         IF ss.k = "panic" THEN ErrorExit(p, 101, sb.w)
         ELSE IF ss.k \in {"static", "norule"} THEN Imm(ss.w, ss.rv, ss.k)
+        ELSE IF StaleTmpDirBug /\ TmpDir(t) THEN
+            \* builder.rs:206 (pinned): unlink() of a stale temporary *directory* fails with EISDIR; start_self returns
+            \* the error, the transaction is dropped, the target fails like a job (generic error, exit 1)
+            Imm(w1, 1, "starterr")
         ELSE
             LET s == p \o <<t>> IN
             /\ w' = ss.w
-            /\ tmp' = tmp \ {t}
+            /\ tmp' = DelTmp(tmp, t)
             /\ locks' = lockIt
             /\ ran' = Append(ran, t)
             /\ procs' = Spawn([procs EXCEPT ![p] = [adv EXCEPT !.jobs = @ \cup {[JobRec(t, "self", ss.sf, before, s) EXCEPT !.df = ss.df]},
@@ -441,9 +472,13 @@ NeedsCopy(j) ==
 RecCopy(p, j) ==
     LET P == procs[p] IN
     /\ P.kind = "redo" /\ j \in P.jobs /\ j.k = "self" /\ j.st = "exited" /\ NeedsCopy(j)
-    /\ tmp' = tmp \cup {j.t}
+    /\ tmp' = AddTmp(tmp, j.t, "f")
     /\ procs' = [procs EXCEPT ![p].jobs = (@ \ {j}) \cup {[j EXCEPT !.st = "copied"]}]
     /\ UNCHANGED <<fs, clock, w, runid, locks, cmd, hist, ran, ncmds, pool, gh>>
+
+\* rename(tmp, t) fails when t is a (non-empty) directory (EISDIR / ENOTEMPTY) or when the temporary output is a
+\* directory and t is a file (ENOTDIR): EXIT_BUILD_JOB_ERROR (209), nothing is installed
+RenameFails(t) == fs[t].ex /\ (fs[t].dir \/ TmpDir(t))
 
 \* builder.rs:499-584: the file operation of record_new_state
 RecFs(p, j) ==
@@ -452,15 +487,18 @@ RecFs(p, j) ==
     IN
     /\ P.kind = "redo" /\ j \in P.jobs /\ j.k = "self"
     /\ (j.st = "exited" /\ ~NeedsCopy(j)) \/ j.st = "copied"
-    /\ IF out.op = "rename" THEN
-          /\ fs' = [fs EXCEPT ![j.t] = [ex |-> TRUE, val |-> j.val, ver |-> clock + 1, own |-> "redo"]]
+    /\ IF out.op = "rename" /\ ~RenameFails(j.t) THEN
+          /\ fs' = [fs EXCEPT ![j.t] = [ex |-> TRUE, val |-> j.val, ver |-> clock + 1, own |-> "redo",
+                                        dir |-> TmpDir(j.t), lnk |-> ""]]
           /\ clock' = clock + 1
-       ELSE IF out.op = "unlink" THEN
+       ELSE IF out.op = "unlink" /\ ~fs[j.t].dir THEN      \* (EISDIR is tolerated: a directory made at $1 stays)
           /\ fs' = [fs EXCEPT ![j.t] = Absent]
           /\ UNCHANGED clock
        ELSE UNCHANGED <<fs, clock>>
-    /\ tmp' = tmp \ {j.t}
-    /\ procs' = [procs EXCEPT ![p].jobs = (@ \ {j}) \cup {[j EXCEPT !.st = "fs", !.rv = out.rv]}]
+    \* (after a failure, also of the rename, whatever is at $3 is removed: builder.rs:623-634)
+    /\ tmp' = DelTmp(tmp, j.t)
+    /\ procs' = [procs EXCEPT ![p].jobs = (@ \ {j}) \cup
+                     {[j EXCEPT !.st = "fs", !.rv = IF out.op = "rename" /\ RenameFails(j.t) THEN 209 ELSE out.rv]}]
     /\ UNCHANGED <<w, runid, locks, cmd, hist, ran, ncmds, pool, gh>>
 
 \* builder.rs:585-636 + commit + Lock drop
@@ -563,7 +601,7 @@ ScriptStep(s) ==
             [] op = "touch" ->
                  \* a side file redo knows nothing about (it is nobody's dependency)
                  /\ fs' = [fs EXCEPT ![o.args[1]] = [ex |-> TRUE, val |-> [n |-> o.args[1], k |-> "side", v |-> 0, d |-> <<>>],
-                                                    ver |-> clock + 1, own |-> "script"]]
+                                                    ver |-> clock + 1, own |-> "script", dir |-> FALSE, lnk |-> ""]]
                  /\ clock' = clock + 1
                  /\ procs' = [procs EXCEPT ![s] = nxt]
                  /\ gh' = Bump(o.args[1])
@@ -611,13 +649,16 @@ ScriptStep(s) ==
                  IN
                  /\ procs' = [procs EXCEPT ![s] = [nxt EXCEPT !.val = val,
                                  !.std  = (@ \/ o.ch \in {"stdout", "both"}),
-                                 !.file = (@ \/ o.ch \in {"file", "both", "filedir"})]]
-                 \* ("filedir": $3 created as a directory; only used by rules that fail afterwards)
-                 /\ tmp' = IF o.ch \in {"file", "both", "filedir"} THEN tmp \cup {S.t} ELSE tmp
+                                 !.file = (@ \/ o.ch \in {"file", "both", "filedir", "dirout"})]]
+                 \* ("filedir": $3 created as an empty directory by a rule that fails afterwards; "dirout": $3 created as
+                 \* a directory holding the output, by a rule that may succeed)
+                 /\ tmp' = IF o.ch \in {"file", "both"} THEN AddTmp(tmp, S.t, "f")
+                           ELSE IF o.ch \in {"filedir", "dirout"} THEN AddTmp(tmp, S.t, "d") ELSE tmp
                  \* "directold": written to $1 and given an old mtime (cp -p): any different stamp counts as modified
-                 /\ IF o.ch \in {"direct", "directold"} THEN
+                 \* "dirdirect": rm -rf $1; mkdir $1; output inside (the idiom for directory targets)
+                 /\ IF o.ch \in {"direct", "directold", "dirdirect"} THEN
                        /\ fs' = [fs EXCEPT ![S.t] = [ex |-> TRUE, val |-> val, ver |-> clock + 1,
-                                                     own |-> "script"]]
+                                                     own |-> "script", dir |-> (o.ch = "dirdirect"), lnk |-> ""]]
                        /\ clock' = clock + 1
                        /\ gh' = Bump(S.t)
                     ELSE UNCHANGED <<fs, clock, gh>>
@@ -729,6 +770,7 @@ UserStep ==
     \/ \E n \in UserFiles : UserWrite(n)
     \/ \E n \in RmFiles : UserRemove(n)
     \/ \E n \in TmpFiles : UserTmp(n)
+    \/ \E n \in DOMAIN Links : \E i \in 1..Len(Links[n]) : UserRelink(n, Links[n][i])
     \/ \E df \in DoEdits : DoEdit(df) \/ DoRemove(df) \/ DoAdd(df)
     \/ \E c \in Cmds : StartBuild(c) \/ Query(c)
 
